@@ -14,7 +14,7 @@ REGISTRY = {}  # prop -> [Contract]
 
 class Contract:
     def __init__(self, name, props, targets, cases, body, kind="deductive", canary=False,
-                 tiers=("quick", "thorough"), doc="", timeout_ms=None, bound=None, max_paths=None):
+                 tiers=("quick", "thorough"), doc="", timeout_ms=None, bound=None, max_paths=None, replayable=True):
         self.name = name
         self.props = props
         self.targets = targets
@@ -27,6 +27,9 @@ class Contract:
         self.timeout_ms = timeout_ms
         self.bound = bound  # human-readable statement of the bound for kind == 'bounded'
         self.max_paths = max_paths
+        # False for contracts over the array-theory heap: a counter-model cannot be turned into real
+        # objects, so a refutation is reported per DESIGN.md 2.6 item 3 (ledger + no-failing-input-found)
+        self.replayable = replayable
         self._cases = {}
 
     def cases(self, tier):
